@@ -196,6 +196,14 @@ pub fn eval_v<A: HC>(v: &V) -> R<Seq<A>> {
         })?,
         V::And(a, b) => eval_s::<A, _>(a, &mut |x| eval_s::<A, _>(b, &mut |y| Ok(x & y)))?,
         V::Or(a, b) => eval_s::<A, _>(a, &mut |x| eval_s::<A, _>(b, &mut |y| Ok(x | y)))?,
+        V::AndSV(a, b) => {
+            let y = eval_v::<A>(b)?;
+            eval_s::<A, _>(a, &mut |x| Ok(x & &y))?
+        }
+        V::OrSV(a, b) => {
+            let y = eval_v::<A>(b)?;
+            eval_s::<A, _>(a, &mut |x| Ok(x | &y))?
+        }
         V::BitAnd(a, b) => eval_v::<A>(a)?.bit_and(eval_v::<A>(b)?),
         V::BitOr(a, b) => eval_v::<A>(a)?.bit_or(eval_v::<A>(b)?),
         V::Push(v, i) => {
